@@ -8,7 +8,7 @@ from .cfg import CFG, Node
 from .dataflow import Reaching, local_defs, own_nodes, own_statements, params_of, resolve_values
 from .match import Expander, norm, text
 from .report import Report
-from .rules_client import CLIENT, _bind, client_class, loc, methods
+from .rules_client import CLIENT, _bind, client_class, fmethod, fmethods, loc, methods
 from .schema import Schema
 from .source import AnalysisError, ClassInfo, Func, Project, dotted, parent
 
@@ -154,10 +154,10 @@ def q_r2_keywords(p: Project, schema: Schema, rep: Report):
     rep.rule("Q-R2", "in every model constructor call of the client, each keyword names a declared single child of that model and carries the like-named value: a parameter / self attribute of the same name (the include flag named after its aggregate: inctran -> INCTRAN.include, incpos -> INCPOS.include), or an aggregate built from the child's own target class")
     ci = client_class(p)
     n = 0
-    for nm, fn in methods(ci):
+    for nm, fn0, fn in fmethods(p, ci):
         cfg = CFG(fn)
         reach = Reaching(cfg)
-        params = set(params_of(fn))
+        params = set(params_of(fn0))
         for node in cfg.nodes:
             for c in node.calls():
                 m = _model_ctor(p, schema, c)
@@ -243,6 +243,11 @@ def q_r3_dispatch(p: Project, schema: Schema, rep: Report):
                     handlers[text(dec.args[0])] = payload
     for tname, fields in tuples.items():
         h = handlers.get(tname)
+        if h is not None:
+            from .flat import flat as _flat
+
+            h0 = h
+            h = _flat(p, CLIENT, h0)
         rep.check("Q-R3", f"{tname}:handler", h is not None, f"no wrap_stmtrq handler registered for {tname}: such requests raise ValueError" if h is None else "", loc(p, m.classdef(tname)))
         if h is None:
             continue
@@ -250,6 +255,7 @@ def q_r3_dispatch(p: Project, schema: Schema, rep: Report):
         if len(rets) != 1 or not isinstance(rets[0].value, ast.Tuple) or len(rets[0].value.elts) != 2:
             raise AnalysisError(f"Q-R3: handler for {tname} does not return (message-set class, [wrappers])")
         msgexpr, lst = rets[0].value.elts
+        lst = Expander(h).x(lst)
         msgcls = p.resolve(CLIENT, text(msgexpr))
         if not isinstance(lst, ast.ListComp):
             raise AnalysisError(f"Q-R3: handler for {tname} does not build its wrappers with a list comprehension")
@@ -299,61 +305,77 @@ def q_r3_dispatch(p: Project, schema: Schema, rep: Report):
 
 
 def q_r4_signon(p: Project, rep: Report):
-    rep.rule("Q-R4", "signon(): CLIENTUID is None exactly when the effective version is below 103 and the configured clientuid otherwise; FI is built from self.org/self.fid iff org is set")
+    rep.rule("Q-R4", "signon() (flattened): on every path to the SONRQ constructor, CLIENTUID is None exactly when the effective version is below 103 and self.clientuid otherwise; FI is FI(org=self.org, fid=self.fid) exactly when org is set and None otherwise; the sign-on message set wraps that SONRQ")
+    from . import paths as PT
+
     ci = client_class(p)
-    fn = ci.own_func("signon")
-    if fn is None:
+    fn0 = ci.own_func("signon")
+    if fn0 is None:
         raise AnalysisError("OFXClient.signon not found")
-    found = {"clientuid": False, "fi": False}
-    for st in own_statements(fn):
-        if not isinstance(st, ast.If):
-            continue
-        t = text(norm(st.test))
-        def assigned(body):
-            out = {}
-            for s in body:
-                if isinstance(s, (ast.Assign, ast.AnnAssign)):
-                    tg = s.targets[0] if isinstance(s, ast.Assign) else s.target
-                    if isinstance(tg, ast.Name) and s.value is not None:
-                        out[tg.id] = text(s.value)
-            return out
-        a, b = assigned(st.body), assigned(st.orelse)
-        if "version" in t:
-            found["clientuid"] = True
-            ok_t = t in ("self.version < 103", "self.version <= 102")
-            if t in ("103 <= self.version", "102 < self.version"):
-                ok_t, a, b = True, b, a
-            rep.check("Q-R4", "signon:clientuid-threshold", ok_t, f"CLIENTUID is suppressed under `{t}`; it exists from OFX 1.0.3 on, so the test must be version < 103", loc(p, st))
-            ok = a.get("clientuid") == "None" and b.get("clientuid") == "self.clientuid"
-            rep.check("Q-R4", "signon:clientuid-branches", ok, f"below the threshold clientuid={a.get('clientuid')}, otherwise {b.get('clientuid')}; expected None / self.clientuid", loc(p, st))
-        if t in ("self.org", "self.org is not None"):
-            found["fi"] = True
-            ok = a.get("fi") in ("FI(org=self.org, fid=self.fid)", "FI(fid=self.fid, org=self.org)") and b.get("fi") == "None"
-            rep.check("Q-R4", "signon:fi-iff-org", ok, f"with org set fi={a.get('fi')}, otherwise {b.get('fi')}", loc(p, st))
-    for k, v in found.items():
-        if not v:
-            rep.check("Q-R4", f"signon:{k}-decision", False, f"no branch decides {k} from the client configuration", loc(p, fn))
-    # those locals reach SONRQ unchanged
-    cfg = CFG(fn)
-    reach = Reaching(cfg)
-    for node in cfg.nodes_calling(lambda c: isinstance(c.func, ast.Name) and c.func.id == "SONRQ"):
-        call = [c for c in node.calls() if isinstance(c.func, ast.Name) and c.func.id == "SONRQ"][0]
+    fn = fmethod(p, ci, "signon")
+    ex = Expander(fn)
+    pths = PT.enumerate_paths(fn, expander=ex)
+    cfg = pths.cfg
+    sites = [(n, c) for n in cfg.nodes for c in n.calls() if isinstance(c.func, ast.Name) and c.func.id == "SONRQ"]
+    if not sites:
+        raise AnalysisError("Q-R4: signon() builds no SONRQ")
+    import re as _re
+
+    for node, call in sites:
         b = _bind(call, [])
-        for k in ("clientuid", "fi"):
-            vals = sorted({text(v) for v in resolve_values(b[k], node, reach)}) if k in b else []
-            want = ["None", "self.clientuid"] if k == "clientuid" else ["FI(org=self.org, fid=self.fid)", "None"]
-            rep.check("Q-R4", f"signon:SONRQ({k})", vals == sorted(want), f"SONRQ.{k} can be {vals}; expected {want}" if vals != sorted(want) else "", loc(p, call))
+        for field in ("clientuid", "fi"):
+            if field not in b:
+                rep.check("Q-R4", f"signon:SONRQ({field})", False, f"SONRQ is built without {field}=", loc(p, fn0))
+                continue
+            table = {}  # decision atom truth -> set of values
+            decided_by = None
+            for pth in pths:
+                cb = pth.conds_before(node.id)
+                if cb is None:
+                    continue
+                idx = pth.nodes.index(node.id)
+                v = text(PT.value_on_path(pth, cfg, b[field], upto=idx))
+                sc = PT.simple_conds(cb)
+                if field == "clientuid":
+                    keys = [a for a in sc if _re.fullmatch(r"self\.version < \d+|\d+ < self\.version", a)]
+                else:
+                    keys = [a for a in sc if a in ("bool(self.org)", "self.org is None")]
+                if not keys:
+                    table.setdefault(None, set()).add(v)
+                    continue
+                decided_by = keys[0]
+                table.setdefault(sc[keys[0]], set()).add(v)
+            if decided_by is None:
+                rep.check("Q-R4", f"signon:{field}-decision", False, f"no condition on the client configuration decides {field} (values: {sorted(x for s_ in table.values() for x in s_)})", loc(p, fn0))
+                continue
+            if field == "clientuid":
+                m = _re.fullmatch(r"self\.version < (\d+)", decided_by)
+                m2 = _re.fullmatch(r"(\d+) < self\.version", decided_by)
+                # `version < 103` true => below ; `102 < version` false => below
+                if m:
+                    thr_ok, below_when = int(m.group(1)) == 103, True
+                else:
+                    thr_ok, below_when = int(m2.group(1)) == 102, False
+                rep.check("Q-R4", "signon:clientuid-threshold", thr_ok, f"CLIENTUID is decided on `{decided_by}`; it exists from OFX 1.0.3 on, so the boundary must be version < 103", loc(p, fn0))
+                below, above = table.get(below_when, set()), table.get(not below_when, set())
+                ok = below == {"None"} and above == {"self.clientuid"} and None not in table
+                rep.check("Q-R4", "signon:clientuid-branches", ok, f"below the threshold clientuid={sorted(below)}, otherwise {sorted(above)}; expected None / self.clientuid", loc(p, fn0))
+            else:
+                set_when = True if decided_by == "bool(self.org)" else False
+                with_org, without = table.get(set_when, set()), table.get(not set_when, set())
+                ok = with_org <= {"FI(org=self.org, fid=self.fid)", "FI(fid=self.fid, org=self.org)"} and bool(with_org) and without == {"None"} and None not in table
+                rep.check("Q-R4", "signon:fi-iff-org", ok, f"with org set fi={sorted(with_org)}, otherwise {sorted(without)}", loc(p, fn0))
     # the sign-on message set wraps exactly that SONRQ
-    rets = [r for r in own_nodes(fn) if isinstance(r, ast.Return)]
-    ok = bool(rets) and all(isinstance(r.value, ast.Call) and text(r.value.func) == "SIGNONMSGSRQV1" and len(r.value.keywords) == 1 and r.value.keywords[0].arg == "sonrq" for r in rets)
-    rep.check("Q-R4", "signon:one-sonrq", ok, "" if ok else "signon() does not return SIGNONMSGSRQV1(sonrq=<the SONRQ>)", loc(p, fn))
+    rps, _ = PT.return_paths(fn, expander=ex)
+    ok = bool(rps) and all(rtxt.startswith("SIGNONMSGSRQV1(sonrq=SONRQ(") for _p, rtxt, _s in rps)
+    rep.check("Q-R4", "signon:one-sonrq", ok, "" if ok else f"signon() returns {[r[:50] for _p, r, _s in rps]}, not SIGNONMSGSRQV1(sonrq=<the SONRQ>)", loc(p, fn0))
 
 
 def q_r5_trnuid(p: Project, schema: Schema, rep: Report):
     rep.rule("Q-R5", "every transaction wrapper (*TRNRQ) is given a trnuid read from self.uuid inside the function that builds it (one fresh id per wrapper), and uuid returns a new uuid4 on each access")
     ci = client_class(p)
     n = 0
-    for nm, fn in methods(ci):
+    for nm, fn0, fn in fmethods(p, ci):
         cfg = CFG(fn)
         reach = Reaching(cfg)
         for node in cfg.nodes:
